@@ -415,3 +415,110 @@ func DocEqual(a, b map[string]any) bool {
 	}
 	return Equal(NormDoc(a), NormDoc(b))
 }
+
+// Quirks walks an RFC 6902 list with the reference semantics and names the conditions under which RFC 6902
+// libraries are known to deviate (used only to label a divergence, never to excuse one).
+func Quirks(doc any, ops []any) []string {
+	var out []string
+	add := func(s string) {
+		for _, e := range out {
+			if e == s {
+				return
+			}
+		}
+		out = append(out, s)
+	}
+	cur := Clone(doc)
+	var copied [][]string // pointers that may share structure after a copy
+	related := func(a, b []string) bool { return isPrefix(a, b) || isPrefix(b, a) }
+	for _, o := range ops {
+		op, _ := o.(map[string]any)
+		kind, _ := op["op"].(string)
+		path, _ := op["path"].(string)
+		toks, err := pointerTokens(path)
+		if err != nil {
+			add("pointer-syntax")
+			break
+		}
+		for _, c := range copied {
+			if related(c, toks) {
+				add("edit-after-copy")
+			}
+		}
+		if kind == "replace" || kind == "test" || kind == "remove" {
+			target, gerr := getAt(cur, toks)
+			if gerr != nil {
+				add(kind + "-missing-target")
+			}
+			if kind == "test" && (hasNull(target) || hasNull(op["value"])) {
+				add("test-null")
+			}
+			if kind == "test" && (isContainer(target) || isContainer(op["value"])) {
+				add("test-container")
+			}
+		}
+		if kind == "copy" || kind == "move" {
+			from, _ := op["from"].(string)
+			ft, ferr := pointerTokens(from)
+			if ferr != nil {
+				add("pointer-syntax")
+				break
+			}
+			if _, gerr := getAt(cur, ft); gerr != nil {
+				add(kind + "-missing-from")
+			}
+			if isPrefix(ft, toks) && len(toks) > len(ft) {
+				add(kind + "-into-own-source")
+			}
+			for _, c := range copied {
+				if related(c, ft) {
+					add("edit-after-copy")
+				}
+			}
+			if kind == "copy" {
+				copied = append(copied, ft, toks)
+			}
+			if len(toks) > 0 {
+				if parent, perr := getAt(cur, toks[:len(toks)-1]); perr == nil {
+					if _, isArr := parent.([]any); isArr {
+						add(kind + "-to-array-element")
+					}
+				}
+			}
+		}
+		next, aerr := ApplyRFC6902(cur, []any{o})
+		if aerr != nil {
+			continue // a deviating library may carry on; keep labelling the remaining operations
+		}
+		cur = next
+	}
+	return out
+}
+
+func hasNull(v any) bool {
+	switch x := v.(type) {
+	case nil:
+		return true
+	case map[string]any:
+		for _, e := range x {
+			if hasNull(e) {
+				return true
+			}
+		}
+	case []any:
+		for _, e := range x {
+			if hasNull(e) {
+				return true
+			}
+		}
+	}
+	return false
+}
+
+func isContainer(v any) bool {
+	switch v.(type) {
+	case map[string]any, []any:
+		return true
+	}
+	return false
+}
